@@ -1,6 +1,11 @@
 """C19 — chaos: generator and implementation-side monitors
 
-Header  `chaos seed=<u64> [erate=<spec>] lrate=<spec> min_us=<µs> max_us=<µs> [order=<0|1>] [sweep=1] [handles=<k>]`
+Header  `chaos seed=<u64> [erate=<spec>] lrate=<spec> min_us=<µs> max_us=<µs> [order=<0|1|2|3>] [entry=layer|new|default]
+         [name=<s>|-] [sweep=1] [handles=<k>] [ready=<script>]`
+  `order`: builder path — 0 `.error_rate(r).error_fn(f)` after everything else, 1 `.error_fn(f).error_rate(r)`, 2 `.error_rate(r)`
+  first and everything else on the second builder type (`ChaosConfigBuilderWithRate`), 3 name + listeners before, rates / bounds /
+  seed after `.error_rate(r)`; `entry`: `ChaosLayer::builder()` | `ChaosConfigBuilder::new()` | `ChaosConfigBuilder::default()`;
+  `name=-`: `.name(..)` not called.
   rate spec: T<n> = n/2^53 | b<f64 bits> | d<i>[+1|-1] = the i-th f64 of the seed's stream (± 2^-53)
 First op of every case: `probe cfg` (the harness reports the exact thresholds ⌈rate·2^53⌉).
 Requests `arrive <c> tag=<t> inner=<lat>:<out>`.
@@ -29,6 +34,15 @@ every rate regime, uniformly per case or mixed per request. Header `ready=<scrip
 scripted service (readiness per instance; `poll_ready` answered 'r'/'p'/'e' from the script; `inner_call … ready=0|1`);
 the twin's silent wrapped service is strict as well (`#unready-b c`). A request refused by `poll_ready` is
 `result c notready`.
+
+Several services from ONE layer value: `arrive c … svc=<k> [lclone=1]` — service k is made lazily from the one layer value of
+instance A (with `lclone=1` from a clone of the layer taken at that moment). The seeded stream is per service: every service has a
+twin of its own (an independently built layer and service) that gets exactly the requests of that service, and the decision
+sequences of the services (each in its own first-poll order) must agree with each other on their common prefix.
+
+The decision function is NOT pinned: the model consumes the decision the layer reports (`@dec=e|l<ms>|p`) and checks the boundary
+clauses; reproducibility is decided by the determinism monitors below (same seed + same request order twice inside the case). The
+old draw scheme survives as an informational reference only (`#ref`, transition tags `draw-scheme-as-reference` / `-differs`).
 
 `manual stress threads=<N> calls=<K>`: real-OS-thread stress search on a separate, freshly built and equally
 seeded instance (N threads with a clone each, K calls in total, first poll only). A SEARCH, NOT A PROOF:
@@ -317,19 +331,102 @@ def gen_stress(rng, tier):
     return {"header": hdr, "ops": ops}
 
 
+def builder_path(rng, hdr):
+    """which public builder path makes the layer (all must give the same layer): order of `.error_rate` / `.error_fn` / the rest
+    (incl. everything configured on the second builder type), where the builder comes from, `.name(..)` called or not"""
+    if "erate=" in hdr and " order=" not in hdr:
+        r = rng.random()
+        if r < 0.22:
+            hdr += " order=2"
+        elif r < 0.36:
+            hdr += " order=3"
+    r = rng.random()
+    if r < 0.12:
+        hdr += " entry=new"
+    elif r < 0.24:
+        hdr += " entry=default"
+    r = rng.random()
+    if r < 0.15:
+        hdr += " name=-"
+    elif r < 0.30:
+        hdr += " name=%s" % rng.choice(["a", "chaos-1", "payments", "x" * 40])
+    return hdr
+
+
+def services(rng, case, force=False):
+    """several services made from the one layer value: ` svc=<k>` (and ` lclone=1`) on the arrivals"""
+    if not force and rng.random() >= 0.38:
+        return case
+    n = rng.choice([2, 2, 2, 3, 4])
+    arrivals = [i for i, o in enumerate(case["ops"]) if o.startswith("arrive ")]
+    how = rng.choice(["alt", "random", "random", "blocks"])
+    lc = rng.choice([0.0, 0.0, 0.3, 1.0])
+    for j, i in enumerate(arrivals):
+        k = j % n if how == "alt" else rng.randrange(n) if how == "random" else min(n - 1, j * n // max(1, len(arrivals)))
+        extra = "" if k == 0 and rng.random() < 0.5 else " svc=%d" % k
+        if rng.random() < lc:
+            extra += " lclone=1"
+        case["ops"][i] += extra
+    return case
+
+
+def gen_services(rng):
+    """Two to four services from one layer value at rates strictly between 0 and 1 (so that decisions vary): the same number
+    of requests on each, traffic interleaved in a random order — or service after service —, everything polled to completion"""
+    seed = rng.choice([0, 1, 42, rng.randint(0, (1 << 64) - 1), rng.randint(0, 1000)])
+    mid = lambda: "T%d" % rng.choice([P53 // 2, P53 // 3, P53 // 4, P53 - P53 // 4, rng.randint(P53 // 8, P53 - P53 // 8)])
+    r = rng.random()
+    rates = " lrate=%s" % mid() if r < 0.25 else " erate=%s lrate=%s" % (mid(), rng.choice([mid(), mid(), "T0", "T%d" % P53]))
+    mn = rng.choice([0, 1, 2, 5])
+    mx = mn + rng.choice([0, 1, 7, 30, 200])
+    hdr = builder_path(rng, "chaos seed=%d%s min_us=%d max_us=%d" % (seed, rates, mn * 1000, mx * 1000))
+    if rng.random() < 0.3:
+        hdr += " handles=%d" % rng.choice([1, 2, 3])
+    nsvc = rng.choice([2, 2, 3, 4])
+    per = rng.randint(1, 5)
+    reqs = [(c + 1, c % nsvc) for c in range(nsvc * per)]
+    if rng.random() < 0.5:
+        reqs.sort(key=lambda x: x[1])                  # service after service: the second starts when the first has served
+        reqs = [(i + 1, k) for i, (_, k) in enumerate(reqs)]
+    lc = rng.choice([0.0, 0.0, 0.5])
+    ops = ["probe cfg"]
+    pend = []
+    for c, k in reqs:
+        ops.append("arrive %d tag=%d inner=%d:%s svc=%d%s" % (c, rng.randint(0, 99), rng.choice([0, 0, 2]), rng.choice(["ok", "ok", "err1"]), k,
+                                                              " lclone=1" if rng.random() < lc else ""))
+        pend.append(c)
+        if rng.random() < 0.6:
+            ops.append("poll %d" % pend.pop(rng.randrange(len(pend))))
+        if rng.random() < 0.15:
+            ops.append("adv %d" % rng.choice([1, mn, mx]))
+    rng.shuffle(pend)
+    if rng.random() < 0.12 and pend:
+        ops.append("manual dropsvc")
+    ops += ["poll %d" % c for c in pend]
+    ops += ["adv %d" % mn, "settle", "adv %d" % (mx - mn + 1), "settle", "adv 3", "settle"]
+    return {"header": hdr, "ops": ops}
+
+
 def gen(rng, tier):
     if rng.random() < STRESS_P.get(tier, 0.02):
-        return gen_stress(rng, tier)
+        case = gen_stress(rng, tier)
+        case["header"] = builder_path(rng, case["header"])
+        return case
     if rng.random() < 0.07:
-        return gen_modes(rng)
+        case = gen_modes(rng)
+        case["header"] = builder_path(rng, case["header"])
+        return services(rng, case)
+    if rng.random() < 0.08:
+        return gen_services(rng)
     case = gen_ordinary(rng, tier)
+    case["header"] = builder_path(rng, case["header"])
     # caller modes and the strict wrapped service, in whatever rate regime the case has
     modes = caller_modes(rng) if rng.random() < 0.5 else None
     if rng.random() < 0.45:
         case["header"] += " ready=%s" % ready_script(rng, hard=rng.random() < 0.35)
     if modes:
         case["ops"] = [o + modes() if o.startswith("arrive ") else o for o in case["ops"]]
-    return case
+    return services(rng, case)
 
 
 def gen_ordinary(rng, tier):
@@ -498,14 +595,15 @@ def _injected(res):
 
 
 def _decisions(meta):
-    """-> (first-poll order, predicted by the oracle, reported by instance A, reported by the twin) per request"""
+    """-> (first-poll order, reference draw scheme, reported by instance A, reported by the twin) per request"""
     pred, order, seen, seenb = {}, [], {}, {}
     for _, m in meta:
         w = m.split()
         if len(w) < 3:
             continue
-        if w[0] == "#pred":
+        if w[0] == "#ref":
             pred[int(w[1])] = w[2]
+        elif w[0] == "#svc":
             order.append(int(w[1]))
         elif w[0] == "#obs":
             seen.setdefault(int(w[1]), []).append(w[2])
@@ -514,59 +612,113 @@ def _decisions(meta):
     return order, pred, seen, seenb
 
 
+def _services(meta):
+    """-> (service of each first-polled request, per service the requests in the order of their first polls)"""
+    svc_of, per = {}, {}
+    for _, m in meta:
+        w = m.split()
+        if len(w) >= 3 and w[0] == "#svc":
+            svc_of[int(w[1])] = int(w[2])
+            per.setdefault(int(w[2]), []).append(int(w[1]))
+    return svc_of, per
+
+
 def mon_determinism(case, lines, meta):
-    """The determinism clause with no reference to what the decision function is: two equally seeded instances are
-    given the same requests in the same order but are driven differently (a: each request served by a clone, call() at
-    arrival; b: one handle, call() only at the first poll); they must behave alike and report the same decision
-    (incl. the latency amount) for every request."""
+    """The determinism clause with no reference to what the decision function is: the same seed and the same order of
+    requests are run twice inside the case. Every service k made from the layer value of instance A has a twin: a service
+    built independently (its own builder()…build(), same configuration and seed) that is given exactly the requests made
+    on service k, in the same order of first polls, but is driven differently (a: each request served by a clone, call()
+    at arrival, next to the traffic of the sibling services; b: one handle, call() only at the first poll, alone). They
+    must behave alike and report the same decision (incl. the latency amount) for every request."""
     i = _scan(case, lines, meta)
     order, _, seen, seenb = _decisions(meta)
+    svc_of, per = _services(meta)
+    several = len(per) > 1
     for n, c in enumerate(order):
         if seen.get(c, []) != seenb.get(c, []):
-            return ("same seed, same requests in the same order, but for request %d (the %d. to be first polled; order %s) instance a "
-                    "(served by clones, call() at arrival) decided %s and instance b (one handle never cloned, call() at the first poll) "
-                    "decided %s" % (c, n + 1, order, ",".join(seen.get(c, [])) or "nothing", ",".join(seenb.get(c, [])) or "nothing"))
+            k = svc_of.get(c, 0)
+            rank = per.get(k, [c]).index(c) + 1 if c in per.get(k, []) else n + 1
+            where = ("service %d of the layer value (requests of that service in first-poll order: %s; first polls of all services: %s)"
+                     % (k, per.get(k), order)) if several else "the service (first-poll order %s)" % order
+            return ("same seed, same requests in the same order, but for request %d — the %d. request to be first polled on %s — "
+                    "instance a (served by clones, call() at arrival) decided %s and its equally seeded, independently built twin "
+                    "(one handle never cloned, call() at the first poll, given only this service's requests) decided %s"
+                    % (c, rank, where, ",".join(seen.get(c, [])) or "nothing", ",".join(seenb.get(c, [])) or "nothing"))
     if i["twin"]:
         return ("two equally seeded instances given the same requests in the same order (a: served by clones, call() at arrival; "
-                "b: one handle never cloned, call() at the first poll) behaved differently: %s" % i["twin"][0])
+                "b: independently built, one handle never cloned, call() at the first poll) behaved differently: %s" % i["twin"][0])
     return None
 
 
-def mon_stream(case, lines, meta):
-    """The determinism clause with the function pinned down (stricter than the clause: a change of the decision
-    function that stays deterministic is reported too, and says so): the i-th request to be first polled gets
-    decision i of the seed's reference stream. `#pred c d`: decision i as computed by the harness's free-running oracle
-    generator (never synchronised with the layer) at the i-th first poll; `#obs c d`: what the layer decided
-    for that request (its own event callbacks). Independent of which clone served the request, of when the
-    future was created relative to other requests' polls, of payloads, instants and outcomes."""
+def mon_services(case, lines, meta):
+    """Services made from ONE layer value are equally seeded services: each has the seed's stream to itself, so the
+    decision sequences of any two of them (each in the order of its own first polls) agree on their common prefix —
+    however their traffic is interleaved and however much the other one has served. No reference to the decision function."""
+    _, _, seen, _ = _decisions(meta)
+    svc_of, per = _services(meta)
+    ks = sorted(per)
+    seqs = {k: [",".join(seen.get(c, [])) or "nothing" for c in per[k]] for k in ks}
+    for a in ks:
+        for b in ks:
+            if a >= b:
+                continue
+            for n, (x, y) in enumerate(zip(seqs[a], seqs[b])):
+                if x != y:
+                    return ("services %d and %d were made from the same layer value (same configuration, same seed) but their decision "
+                            "sequences differ at position %d: service %d decided %s (requests %s in first-poll order), service %d decided "
+                            "%s (requests %s); the %d. decision of a service must not depend on what its sibling has served"
+                            % (a, b, n + 1, a, seqs[a][:n + 1], per[a][:n + 1], b, seqs[b][:n + 1], per[b][:n + 1], n + 1))
+    return None
+
+
+def mon_witness(case, lines, meta):
+    """The implementation's own reference stream: when the case began, an independently built, equally configured and seeded
+    service took its first decisions one after the other (other payloads, instant 0, every request dropped right after its first
+    poll): `#wit i d`. The i-th request to be first polled on a service made from the layer value must get decision i — whatever
+    its payload, the instant, the fate of the requests before it, the handles that are still alive, the traffic of the sibling
+    services. No reference to what the decision function is."""
+    wit = {}
+    for _, m in meta:
+        w = m.split()
+        if len(w) >= 3 and w[0] == "#wit":
+            wit[int(w[1])] = w[2]
+    if not wit:
+        return None
+    _, _, seen, _ = _decisions(meta)
+    svc_of, per = _services(meta)
+    for k in sorted(per):
+        for n, c in enumerate(per[k]):
+            if n in wit and seen.get(c, []) != [wit[n]]:
+                return ("request %d is the %d. request to be first polled on service %d (requests of that service in first-poll order: %s) "
+                        "and the layer decided %s for it; an independently built service with the same configuration and seed, asked for its "
+                        "first decisions one after the other when the case began (other payloads, every request dropped right after its first "
+                        "poll), decided %s as its %d. decision (its first decisions: %s): the decisions depend on something other than the "
+                        "seed and the order of the requests"
+                        % (c, n + 1, k, per[k], ",".join(seen.get(c, [])) or "nothing", wit[n], n + 1,
+                           [wit[j] for j in sorted(wit)][:n + 1]))
+    return None
+
+
+def reference_scheme(meta):
+    """INFORMATIONAL, never a verdict: does the layer still decide like the draw scheme of the code this harness was written
+    against (per service: StdRng::seed_from_u64(seed); per request in first-poll order: error roll iff error rate > 0, error iff roll
+    < rate; otherwise latency roll iff latency rate > 0, delay iff roll < rate, by random_range(min..=max) iff max > min, else min)?
+    -> True / False / None (no decision taken). The property does not fix the function, so a difference is not a failure."""
     order, pred, seen, _ = _decisions(meta)
-    for i, c in enumerate(order):
-        got = seen.get(c, [])
-        if got != [pred[c]]:
-            return ("PINNED: request %d is the %d. request to be first polled (order %s): the layer decided %s for it, but decision #%d of the "
-                    "reference stream of this seed is %s (StdRng::seed_from_u64(seed); per request, in first-poll order: error roll iff "
-                    "error rate > 0, error iff roll < rate; otherwise latency roll iff latency rate > 0, delay iff roll < rate, by "
-                    "random_range(min..=max) iff max > min, else min). Either the decisions are no longer a function of the seed and the "
-                    "order of requests alone, or that function changed."
-                    % (c, i + 1, order, ",".join(got) if got else "nothing", i + 1, pred[c]))
-    return None
+    if not order:
+        return None
+    return all(seen.get(c, []) == [pred.get(c)] for c in order)
 
 
 def mon_stress(case, lines, meta):
     """Real-thread stress search (`manual stress`): the harness checked, over all calls of all threads, the
     clauses `error rate 1 => every call fails and the inner service is never called`, `rates 0/0 => transparent`,
-    `every call behaves as the one decision reported for it`, and `the multiset of the K decisions is that of the
-    first K decisions of the seed's stream` (each request draws its rolls atomically). Reported in full."""
+    `every call behaves as the one decision reported for it`, and `the multiset of the K decisions is that of K calls
+    made one after the other on an equally seeded, independently built service` (the decisions are a function of the
+    seed and of the order in which the requests take their decision; no reference to what the function is). In full."""
     for _, m in meta:
         if m.startswith("#stress-fail"):
-            body = m[len("#stress-fail"):].strip()
-            parts = body.split(" :: ")
-            fails = parts[1].split(" | ") if len(parts) > 1 else []
-            if fails and all(f.startswith("the multiset of the") for f in fails):
-                # only the comparison with the reference stream failed: that pins the decision function of the model
-                # (which rolls are drawn, in which order), not a clause of the property
-                return "PINNED: parallel stress run: " + body
-            return "parallel stress run violated the property: " + body
+            return "parallel stress run violated the property: " + m[len("#stress-fail"):].strip()
     return None
 
 
@@ -605,6 +757,23 @@ def mon_extremes(case, lines, meta):
         for c, t in i["fp"].items():
             if c not in i["res"] or not _injected(i["res"][c][1]) or i["res"][c][0] != t:
                 return "error rate 1 but request %d (first polled t=%d) did not fail at once: %s" % (c, t, i["res"].get(c))
+    # the same extremes on the decisions the layer reports (rate 0 => never, rate 1 => always)
+    _, _, seen, _ = _decisions(meta)
+    for c in sorted(seen):
+        for d in seen[c]:
+            if i["eT"] == 0 and d == "error":
+                return "error rate 0 but the layer reports an injected error for request %d" % c
+            if i["eT"] == P53 and d != "error":
+                return "error rate 1 but the layer reports %s for request %d" % (d, c)
+            if i["lT"] == 0 and d.startswith("lat:"):
+                return "latency rate 0 but the layer reports an injected latency (%s) for request %d" % (d, c)
+            if i["lT"] == P53 and d == "pass":
+                return "latency rate 1 but the layer reports that request %d passed through without latency" % c
+    if i["lT"] == 0:
+        for c, t in i["fp"].items():
+            if c in i["call"] and i["call"][c][0] != t:
+                return ("latency rate 0 but request %d (first polled t=%d) reached the inner service only at t=%d: latency injected"
+                        % (c, t, i["call"][c][0]))
     return None
 
 
@@ -796,6 +965,43 @@ def transitions(case, lines, meta=None):
             tags.append("twin-ready-handle-cloned-then-reused")
     if "erate" not in cfg:
         tags.append("no-error-injector")
+    # builder path
+    if cfg.get("order") in ("2", "3") and "erate" in cfg:
+        tags.append("builder-with-rate-" + ("all" if cfg["order"] == "2" else "split"))
+    if cfg.get("entry") in ("new", "default"):
+        tags.append("entry-" + cfg["entry"])
+    if "name" in cfg:
+        tags.append("name-unset" if cfg["name"] == "-" else "name-custom")
+    # several services from the one layer value
+    svc_of, per = _services(meta or [])
+    if len(per) > 1:
+        tags.append("services-2plus")
+        firsts, count = [], {}
+        for _, m in (meta or []):
+            w = m.split()
+            if len(w) >= 3 and w[0] == "#svc":
+                k = int(w[2])
+                if k not in count and any(v > 0 for v in count.values()):
+                    tags.append("service-starts-after-sibling-served")
+                if k in count and firsts and firsts[-1] != k:
+                    tags.append("services-interleaved")
+                count[k] = count.get(k, 0) + 1
+                firsts.append(k)
+        if min(len(v) for v in per.values()) >= 2:
+            tags.append("services-2plus-decisions-each")
+    built = set()
+    for o in case["ops"]:
+        w = o.split()
+        if w[:1] == ["arrive"]:
+            kv = kvs(o)
+            k = int(kv.get("svc", "0"))
+            if k not in built:
+                built.add(k)
+                if kv.get("lclone") == "1":
+                    tags.append("service-from-layer-clone" + ("-taken-after-services-built" if len(built) > 1 else ""))
+    ref = reference_scheme(meta or [])
+    if ref is not None:
+        tags.append("draw-scheme-as-reference" if ref else "draw-scheme-differs-from-reference")
     for k in ("erate", "lrate"):
         if cfg.get(k, "").startswith("d"):
             tags.append("rate-on-a-roll")
@@ -861,12 +1067,19 @@ ALL = ["range-eq", "range-inverted", "range-proper", "no-error-injector", "rate-
        "inner-strict", "inner-refuses", "result-notready", "via-clone", "via-readyclone", "via-swap", "via-template",
        "twin-via-clone", "twin-via-readyclone", "twin-via-swap", "twin-via-template", "ready-handle-cloned-then-reused",
        "ready-handle-cloned-then-reused-strict", "twin-ready-handle-cloned-then-reused", "modes-strict-at-rates-0",
-       "modes-strict-at-erate-1", "modes-strict-at-lrate-1", "modes-strict-at-rates-mid"]
+       "modes-strict-at-erate-1", "modes-strict-at-lrate-1", "modes-strict-at-rates-mid",
+       "builder-with-rate-all", "builder-with-rate-split", "entry-new", "entry-default", "name-unset", "name-custom",
+       "services-2plus", "service-starts-after-sibling-served", "services-interleaved", "services-2plus-decisions-each",
+       "service-from-layer-clone", "service-from-layer-clone-taken-after-services-built", "draw-scheme-as-reference"]
 
-LEVEL_NOTE = ("Trusted: Lean kernel; the line-by-line reading of service.rs:64-152 as TR.Model.Chaos.decideG / the poll-level machine, validated by the "
-              "sampled correspondence check; rand's StdRng, random::<f64>() (= 53-bit numerator * 2^-53, < 1) and random_range(a..=b) in [a,b], which "
-              "enter the model only as the abstract generator `Gen` with the contract `Lawful`; the harness (mirror StdRng advanced according to the "
-              "branch reported by the layer's public event callbacks, exact decoding of f64 rates to thresholds, virtual clock, manual poller) and the "
+LEVEL_NOTE = ("Trusted: Lean kernel; the reading of service.rs:91-152 as the poll-level machine of TR.Model.Chaos (what a request does once its "
+              "decision is taken), validated by the sampled correspondence check; the decision itself is NOT modelled as a particular function: the "
+              "machine consumes the decision the layer reports through its public event callbacks and checks the boundary clauses (allowedDec); that "
+              "the decisions are a function of seed and request order is decided by the determinism monitors (equally seeded, independently built "
+              "services given the same requests in the same order; services made from one layer value; a parallel run against a sequential one) — "
+              "sampling, not proof. Today's decision block (service.rs:64-89) is transcribed as decideG over an abstract generator only to show that "
+              "it is one admissible function (todays_function_is_admissible); rand enters there only through the contract `Lawful`. The harness "
+              "(decision observed through the layer's callbacks, exact decoding of f64 rates to thresholds, virtual clock, manual poller) and the "
               "python diff/monitors. For min_latency > max_latency the interval of the property is empty; the code (and the model, and the theorem) "
               "use min_latency. Rates outside [0,1] (clamped by the builder), NaN, unseeded layers and multi-threaded races for the generator mutex "
               "are outside the property.")
@@ -887,42 +1100,48 @@ COMMON = {
             "sub-second parts so that the delayed calls complete; 1..12 requests, shuffled first-poll order, drops; either 1 ms sweeps "
             "(exact latency) or random advances biased to min-1/min/max/max+1; requests served by a fresh clone each or by k kept handles; in about "
             "28% of the cases every handle of the service (and of the twin, and the layers) is dropped between the arrivals and the first polls, "
-            "among the first polls, or later (`manual dropsvc`; later arrivals are noop); every "
-            "request is also given to a second equally seeded instance driven differently (one handle, call() at the first poll) and compared with "
-            "decision i of a free-running oracle generator; about 2% (quick) / 1.2% (thorough) of the cases are real-thread stress runs "
+            "among the first polls, or later (`manual dropsvc`; later arrivals are noop); in about 40% of the cases 2-4 services are made from the "
+            "one layer value (`svc=k`, optionally from a clone of the layer), traffic alternating / random / service after service; builder paths: "
+            "error_rate/error_fn in both orders, everything or part configured on the second builder type (order=2/3), ChaosLayer::builder() / "
+            "ChaosConfigBuilder::new() / ::default(), name set / unset; every request is also given to the twin of its service — an independently "
+            "built, equally seeded service driven differently (one handle, call() at the first poll); about 2% (quick) / 1.2% (thorough) of the "
+            "cases are real-thread stress runs compared with a sequential run of an equally seeded service "
             "(2-16 OS threads on clones of one seeded service, 20k-160k calls quick, 50k-800k thorough; rate 1, rates 0, latency rate 1, mid rates); "
             "distinct = distinct implementation log; non-trivial = at least one decision was taken",
-    "trusted": ["transcription of Chaos::call (service.rs:64-152) in TR.Model.Chaos, sampled by the correspondence check",
-                "rand: StdRng::seed_from_u64, random::<f64>() in [0,1) with 53-bit numerators, random_range(a..=b) in [a,b] (abstract generator + contract in the model)",
-                "harness: mirror StdRng synchronised through the layer's public event callbacks, f64->threshold decoding, virtual clock, manual poller; "
-                "free-running oracle StdRng + the harness's own 10-line statement of the decision function (decide_next) for the stream / stress oracles",
+    "trusted": ["transcription of what Chaos::call does once the decision is taken (service.rs:91-152) in TR.Model.Chaos, sampled by the correspondence check",
+                "the layer's public event callbacks report the decision it took (on_error_injected / on_latency_injected / on_passed_through); the behaviour "
+                "that decision must have is predicted by the model and compared",
+                "determinism itself (same seed + same request order => same decisions) is decided by implementation-side monitors on sampled cases, not by proof",
+                "rand only for the instance theorem: random::<f64>() in [0,1) with 53-bit numerators, random_range(a..=b) in [a,b] (abstract generator + contract)",
+                "harness: f64->threshold decoding, virtual clock, manual poller",
                 "std::sync::Mutex gives mutual exclusion (the model's atomic decision block); probed, not proved, by the real-thread stress search",
                 "python diff/monitors"],
     "assumptions": ["the layer is built with a seed; rates in [0,1]; latency bounds compared in whole milliseconds",
-                    "the rolls of one request are drawn atomically (the decision block runs under the generator's mutex); everything else a poll does "
+                    "the decision of one request is taken atomically (the decision block runs under the generator's mutex); everything else a poll does "
                     "touches only that request. Single-threaded cases: one poll is one step. Multi-threaded executions are covered by the theorems only "
                     "through this assumption; the `manual stress` cases search for executions that break it (sampling, not proof)"],
     "level_note": LEVEL_NOTE,
-    "level_text": "Theorems TR.Props.C19.*: for every generator (all seeds, any algorithm within rand's contracts), all thresholds, all millisecond "
-                  "ranges: the decision list of any run is the prefix of the seed's decision stream (independent of instants, payloads, outcomes, "
-                  "cancellations: deterministic, deterministic_prefix, decisions_are_seed_stream); a request decided 'error' never has an inner call in "
-                  "any run (error_skips_inner) and fails in its first poll (error_result_immediate); rates 0/0 consume no draw and call the inner service "
-                  "in the first poll (transparent_*); error rate 1 always fails with one draw and no inner call in any run (always_fails_*); injected "
-                  "latency lies in [min,max], equals min when min>=max, and is real virtual time (latency_*); an injected error consumes exactly the error "
-                  "roll (no_latency_on_error); any interleaving of the threads' requests gives the same multiset of decisions, all 'error' at rate 1 for "
-                  "any number of calls, and the tallies of every seed's stream pass the model's stress check (interleaving_multiset, interleavings_agree, "
-                  "always_fails_stream, transparent_stream, stress_oracle_sound) — given that a request's rolls are drawn atomically; dropping every handle "
-                  "of the service at any point leaves the run what it is without that operation and without the later arrivals (handles_dropped_no_effect, "
-                  "first_poll_after_handles_dropped, always_fails_after_handles_dropped); the whole seconds of a bound count (bound_in_ms, "
-                  "latency_at_least_min, one_second_is_one_second). Model tied to the "
-                  "real ChaosLayer by line-for-line agreement with draws taken from a mirror StdRng, plus a differently driven twin instance, a "
-                  "free-running oracle generator, and a bounded real-thread stress search for the atomicity assumption.",
+    "level_text": "Theorems TR.Props.C19.*: for EVERY family of decision streams (one per service made from the layer value; = all seeds and all "
+                  "decision functions, not only today's draw scheme), all thresholds, all millisecond ranges, all operation lists: the decisions taken on a "
+                  "service are the prefix of ITS stream, independent of instants, payloads, outcomes, cancellations, interleaving and of the traffic of the "
+                  "sibling services (decisions_are_stream, deterministic, deterministic_prefix, equally_seeded_services_agree, services_independent); "
+                  "a request decided 'error' never has an inner call in any run (error_skips_inner) and fails in its first poll (error_result_immediate); for "
+                  "every stream within the boundary clauses (allowedDec): rates 0/0 => every decision is 'pass' and the inner service is called in the first "
+                  "poll (transparent_*); error rate 1 => every decision is 'error', no inner call in any run (always_fails_*); an injected latency lies in "
+                  "[min,max], equals min when min>=max, and is real virtual time (latency_*); today's decision block over any generator within rand's "
+                  "contracts is one such stream (todays_function_is_admissible, todays_*); any interleaving of the threads' requests gives the same "
+                  "multiset of decisions as a sequential run (interleaving_multiset, interleavings_agree, stress_oracle_sound) — given that a request's "
+                  "decision is taken atomically; dropping every handle at any point leaves the run what it is without that operation and the later "
+                  "arrivals (handles_dropped_no_effect, …); the whole seconds of a bound count (bound_in_ms, latency_at_least_min, "
+                  "one_second_is_one_second). The model consumes the decision the real ChaosLayer reports and predicts the behaviour; determinism is "
+                  "tied to the real layer by the twin / services / parallel-vs-sequential monitors.",
 }
 
 SPECS = {
     "C19": dict(COMMON, module="TR.Props.C19",
-                monitors=[("c19-determinism-twin", mon_determinism), ("c19-error-skips-inner", mon_error_skips_inner),
+                monitors=[("c19-determinism-twin", mon_determinism), ("c19-determinism-services", mon_services),
+                          ("c19-determinism-witness", mon_witness),
+                          ("c19-error-skips-inner", mon_error_skips_inner),
                           ("c19-extremes", mon_extremes), ("c19-latency-bounds", mon_latency),
-                          ("c19-readiness", mon_readiness),
-                          ("c19-determinism-stream", mon_stream), ("c19-parallel-stress", mon_stress)]),
+                          ("c19-readiness", mon_readiness), ("c19-parallel-stress", mon_stress)]),
 }
